@@ -770,6 +770,21 @@ func (t *treeRun) listFailureChecks() {
 	if t.failAt == 1 && detsim.IsClosed(h.Ctrl.Ready()) {
 		detsim.Fail("ready-after-failed-first-list", "the first list failed but Ready() closed")
 	}
+	if t.failAt%2 == 0 {
+		// ordinary cleanup of the dead controller (defer c.Close()): the cause stays on record
+		detsim.Count("probe:close-after-list-failure")
+		done := make(chan struct{})
+		go func() {
+			h.Ctrl.Close()
+			close(done)
+		}()
+		if !world.WaitClosed(done, time.Second) {
+			detsim.Fail("hang:Close", "Close() of a controller that a list failure had already stopped did not return\n%s", dumpLive())
+		}
+		if err2 := h.Ctrl.Error(); err2 == nil || err2.Error() != err.Error() {
+			detsim.Fail("list-failure-not-reported", "list#%d failed and Error() reported %q; after a Close() of the stopped controller Error() = %v", t.failAt, err.Error(), err2)
+		}
+	}
 }
 
 // stalledChecks: C10 - what a stalled consumer finally drains is an in-order
